@@ -65,6 +65,10 @@ pub struct Stats {
     pub states: Vec<u64>,
     pub graph_judgements: usize,
     pub inline_judgements: usize,
+    /// inlining judgements whose text holds >= 2 copies of a generative provider
+    pub generative_judgements: usize,
+    /// ... of which the copies were mixed and the program was rejected
+    pub generative_rejections: usize,
 }
 
 impl Stats {
@@ -78,6 +82,7 @@ impl Stats {
             "probes": self.probes, "answer_kinds": self.answer_kinds,
             "states": self.states.iter().map(|s| s.to_string()).collect::<Vec<_>>(),
             "graph_judgements": self.graph_judgements, "inline_judgements": self.inline_judgements,
+            "generative_judgements": self.generative_judgements, "generative_rejections": self.generative_rejections,
         })
     }
 }
@@ -366,6 +371,47 @@ impl Executor<'_> {
                                 let behaviour = |answer: &str| {
                                     if answer.starts_with("Ran") { answer.to_string() } else { "not-run".to_string() }
                                 };
+                                // G6: import occurrences are fresh copies, a bound import is shared.  Judged
+                                // without the inliner: the root is a generative consumer whose occurrences all
+                                // name a generative provider directly (no companion in between).
+                                if let crate::world::Effective::Text(consumer) = model.effective(*root) {
+                                    let direct = consumer.name.starts_with("gen-consumer")
+                                        && !reference.signatures.contains_key(root)
+                                        && consumer.imports.iter().all(|import| {
+                                            import.slot < SLOTS.len()
+                                                && !reference.signatures.contains_key(&import.slot)
+                                                && matches!(
+                                                    model.effective(import.slot),
+                                                    crate::world::Effective::Text(provider) if provider.name.starts_with("gen-provider")
+                                                )
+                                        });
+                                    if direct {
+                                        record.stats.generative_judgements += 1;
+                                        let mixes = matches!(consumer.name.as_str(), "gen-consumer-mixed" | "gen-consumer-crossed");
+                                        if mixes {
+                                            record.stats.generative_rejections += 1;
+                                        }
+                                        let as_expected =
+                                            if mixes { multi.0 == "rejected" } else { multi.0.starts_with("checked-") };
+                                        if !as_expected {
+                                            record.violations.push(Violation {
+                                                property: "C09",
+                                                class: "C09:G6".into(),
+                                                step,
+                                                message: format!(
+                                                    "G6: {} at {} over a provider with a generative definition",
+                                                    consumer.name, SLOTS[*root]
+                                                ),
+                                                expected: if mixes {
+                                                    "rejected: two import occurrences are distinct copies".into()
+                                                } else {
+                                                    "accepted: one bound import is shared / separate copies are each consistent".into()
+                                                },
+                                                actual: multi.0.clone(),
+                                            });
+                                        }
+                                    }
+                                }
                                 if multi.0 != single.0 || behaviour(&multi.1) != behaviour(&single.1) {
                                     record.violations.push(Violation {
                                         property: "C09",
